@@ -24,7 +24,7 @@ CHUNK = 1
 
 
 def n_runs(tier: str) -> int:
-    return 32 if tier == "quick" else 400
+    return 48 if tier == "quick" else 600
 
 
 def prepare(params: dict):
@@ -71,6 +71,8 @@ def gen_history(ch: Choices, known: dict):
                 kinds += ["take", "take", "take", "abandon"]
             if ops and ops[-1]["kind"] == "register":
                 kinds += ["use_custom"] * 6  # a registration is usually followed by a use
+            if any(o["kind"] == "register" for o in ops):
+                kinds += ["register"] * 2  # registrations come in groups
             kind = kinds[ch.choose(len(kinds), "kind")]
             m = ch.choose(nm, "model")
             cfg = gen.gen_config(ch, models[m]) if ch.chance(1, 2, "cfg.random") else dict(gen.DEFAULT_CONFIG)
@@ -96,8 +98,19 @@ def gen_history(ch: Choices, known: dict):
                             "var": ch.choose(len(models[m]["idx"]), "var")})
                 used_models.add(m)
             elif kind == "register":
-                what = ["propagator", "propagator", "dom_heuristic", "var_heuristic", "consistency"][ch.choose(5, "what")]
-                ops.append({"kind": kind, "what": what, "flavour": ch.choose(3, "flavour") if what == "dom_heuristic" else 0})
+                prev_whats = [o["what"] for o in ops if o["kind"] == "register" and o["what"] != "propagator"]
+                if prev_whats and ch.chance(1, 2, "same_kind_again"):
+                    what = prev_whats[-1]  # several registrations of the same kind in one process
+                else:
+                    what = ["propagator", "dom_heuristic", "dom_heuristic", "var_heuristic", "consistency"][ch.choose(5, "what")]
+                flavour = 0
+                if what == "dom_heuristic":
+                    prev = [o["flavour"] for o in ops if o["kind"] == "register" and o["what"] == "dom_heuristic" and o["flavour"]]
+                    if prev and ch.chance(2, 3, "other_factory_product"):
+                        flavour = 3 - prev[-1]  # the OTHER function made by the same factory (same qualified name)
+                    else:
+                        flavour = ch.choose(3, "flavour")
+                ops.append({"kind": kind, "what": what, "flavour": flavour})
                 registered.add(what)
             elif kind == "use_custom":
                 ops.append({"kind": kind, "w": 1 + ch.choose(3, "w"), "with_heuristics": ch.chance(1, 2, "with_heuristics")})
@@ -162,9 +175,13 @@ def run(ch: Choices, focus: str = "C15", params: Optional[dict] = None) -> dict:
         cand = [i for i, o in enumerate(ops) if o["kind"] in ("take", "find_all", "optimize", "split_solve", "use_custom", "example")]
         ncr = min(len(cand), params.get("clean_room_per_history", 3))
         picked = []
-        pool = list(cand)
-        for t in range(ncr):
-            picked.append(pool.pop(ch.choose(len(pool), f"cleanroom{t}")))
+        # operations that run registered functions are the history-sensitive ones: they go first
+        pool = [i for i in cand if ops[i]["kind"] == "use_custom"][-2:]
+        picked.extend(pool)
+        pool = [i for i in cand if i not in picked]
+        for t in range(max(0, ncr - len(picked))):
+            if pool:
+                picked.append(pool.pop(ch.choose(len(pool), f"cleanroom{t}")))
         for i in sorted(picked):
             chain = clean_room_chain(ops, i)
             cr = execute({"models": models, "ops": chain}, False)
